@@ -533,10 +533,14 @@ type xfer struct {
 	pauseFor     time.Duration
 	wPauseAt     int // writer pauses once after this many bytes
 	wPauseFor    time.Duration
+	abort        chan struct{} // closed to cut a scripted reader pause short
 }
 
 func (x *xfer) start() {
 	x.doneW, x.doneR = make(chan struct{}), make(chan struct{})
+	if x.abort == nil {
+		x.abort = make(chan struct{})
+	}
 	go x.writer()
 	go x.reader()
 }
@@ -607,7 +611,10 @@ func (x *xfer) reader() {
 		i++
 		if x.pauseAt > 0 && !paused && off >= uint64(x.pauseAt) {
 			paused = true
-			time.Sleep(x.pauseFor)
+			select {
+			case <-time.After(x.pauseFor):
+			case <-x.abort:
+			}
 		}
 		buf := make([]byte, sz)
 		n, err := x.to.Read(buf)
@@ -682,7 +689,19 @@ func waitAll(limit time.Duration, xs ...*xfer) bool {
 }
 
 func (x *xfer) progress() string {
-	return fmt.Sprintf("[%s written=%d/%d read=%d werr=%v rerr=%v]", x.name, x.written.Load(), x.total, x.read.Load(), x.werr, x.rerr)
+	// werr/rerr are only stable once the goroutines are done
+	we, re := "?", "?"
+	select {
+	case <-x.doneW:
+		we = fmt.Sprint(x.werr)
+	default:
+	}
+	select {
+	case <-x.doneR:
+		re = fmt.Sprint(x.rerr)
+	default:
+	}
+	return fmt.Sprintf("[%s written=%d/%d read=%d werr=%s rerr=%s]", x.name, x.written.Load(), x.total, x.read.Load(), we, re)
 }
 
 func sessProgress(s *UDPSession) string {
@@ -839,7 +858,7 @@ func runSessScenario(t *testing.T, rec *vrec, sc *sessScenario, rng *vrng, hooks
 		pauseAt: sc.PauseAt, pauseFor: time.Duration(sc.PauseMs) * time.Millisecond,
 		wPauseAt: sc.WPauseAt, wPauseFor: time.Duration(sc.WPauseMs) * time.Millisecond}
 	// the first datagram creates the server session; Accept it, configure it
-	x1.doneW, x1.doneR = make(chan struct{}), make(chan struct{})
+	x1.doneW, x1.doneR, x1.abort = make(chan struct{}), make(chan struct{}), make(chan struct{})
 	go x1.writer()
 	l.SetReadDeadline(time.Now().Add(time.Duration(sc.Net.HealAt)*time.Millisecond + 10*time.Minute))
 	server, err := l.AcceptKCP()
